@@ -405,6 +405,30 @@ func c01ManyEvalRules(c *Ctx) {
 		}
 	}
 	c.Nontrivial("many-eval-rules")
+	// an eval() rule whose text calls eval() on another field of its line (nested), several requests on one
+	// enforcer that differ in what the inner rule reads: every request is decided on its own values
+	ms3 := NewMSpec().AddR("r", "sub", "obj", "act").AddP("p", "sub_rule", "obj_rule", "act").AddE("e", effAllow).
+		AddM("m", "r", "p", And(Eval(PTok(0)), Eq(RTok(2), PTok(2))))
+	outer := And(Bin("ge", Attr(0, "Age"), LitN(18)), Eval(PTok(1)))
+	inner := Eq(Attr(1, "Owner"), Attr(0, "Name"))
+	ot := outer.Text("r", "p", ms3.R["r"], ms3.P["p"])
+	it := inner.Text("r", "p", ms3.R["r"], ms3.P["p"])
+	for _, order := range [][]string{{"alice", "bob", "alice", "carol"}, {"bob", "alice", "bob"}, {"carol", "carol", "alice"}} {
+		s3 := StartCase(c, ms3, CaseOpts{EvalTab: map[string]*Ex{ot: outer, it: inner}})
+		if s3 == nil {
+			return
+		}
+		s3.Do(c, EOp{Kind: "adds", Sec: "p", PType: "p", Ex: true, Rules: [][]string{{ot, it, "read"}}})
+		for _, name := range order {
+			for _, age := range []int{30, 10} {
+				req := []V{{Kind: "o", O: map[string]Atom{"Name": {S: name}, "Age": {N: age, Num: true}}}, {Kind: "o", O: map[string]Atom{"Owner": {S: "alice"}}}, VS("read")}
+				s3.Do(c, EOp{Kind: "enfx", Req: req})
+				s3.Do(c, EOp{Kind: "enf", Req: req})
+				c.Evals++
+			}
+		}
+	}
+	c.Nontrivial("nested-eval-rules")
 	// one eval() text shared by two policy lines and referring to a field of the line it stands in: the text is
 	// evaluated against each line anew
 	ms2 := NewMSpec().AddR("r", "sub", "obj", "act").AddP("p", "sub_rule", "dept", "obj", "act").AddE("e", effAllow).
